@@ -10,7 +10,7 @@ each as a port and as an internal instance, with every instance role.  Oracle: a
 import itertools
 from ..core import short_exc
 
-LEAF_KINDS = ["in", "out", "inout", "port", "role_hd", "role_dh", "plain", "src_h", "dest_d"]  # the last two declare one role only
+LEAF_KINDS = ["in", "out", "inout", "port", "role_hd", "role_dh", "plain", "src_h", "dest_d", "role_hh"]  # src_h, dest_d declare one role only; role_hh one role twice (a loop-back line: source first)
 DEEP_KINDS = ["in", "out", "role_hd", "plain", "dest_d"]
 FLIPS = ["no", "ctor", "fn"]
 TOP_FLIPS = ["no", "ctor", "fn", "fn_of_ctor", "fn_of_fn"]  # flipped() of an already flipped instance un-flips it
@@ -32,8 +32,8 @@ def ref_flatten(tree, inst_name, is_port, inst_flip, inst_role):
                 d = {"in": "INPUT", "out": "OUTPUT", "inout": "INOUT", "port": "NONE"}[kind]
                 if flips % 2 == 1:
                     d = {"INPUT": "OUTPUT", "OUTPUT": "INPUT"}.get(d, d)
-            elif kind in ("role_hd", "role_dh", "src_h", "dest_d"):
-                src, dest = {"role_hd": ("HOST", "DEVICE"), "role_dh": ("DEVICE", "HOST"), "src_h": ("HOST", None), "dest_d": (None, "DEVICE")}[kind]
+            elif kind in ("role_hd", "role_dh", "src_h", "dest_d", "role_hh"):
+                src, dest = {"role_hd": ("HOST", "DEVICE"), "role_dh": ("DEVICE", "HOST"), "src_h": ("HOST", None), "dest_d": (None, "DEVICE"), "role_hh": ("HOST", "HOST")}[kind]
                 d = "OUTPUT" if role and role == src else "INPUT" if role and role == dest else "NONE"
             else:
                 d = "NONE"
@@ -69,6 +69,8 @@ def build_bundle(h, tree, counter, inline_roles=False):
             s = h.Signal(width=width, src=b.roles.HOST, dest=b.roles.DEVICE)
         elif kind == "role_dh":
             s = h.Signal(width=width, src=b.roles.DEVICE, dest=b.roles.HOST)
+        elif kind == "role_hh":
+            s = h.Signal(width=width, src=b.roles.HOST, dest=b.roles.HOST)
         elif kind == "src_h":
             s = h.Signal(width=width, src=b.roles.HOST)
         elif kind == "dest_d":
@@ -101,7 +103,7 @@ def build_bundle_unnamed(h, tree, counter):
         if kind in ("in", "out", "inout", "port"):
             sg = {"in": h.Input, "out": h.Output, "inout": h.Inout, "port": h.Port}[kind](width=width)
         else:
-            src, dest = {"role_hd": (host, device), "role_dh": (device, host), "src_h": (host, None), "dest_d": (None, device), "plain": (None, None)}[kind]
+            src, dest = {"role_hd": (host, device), "role_dh": (device, host), "src_h": (host, None), "dest_d": (None, device), "plain": (None, None), "role_hh": (host, host)}[kind]
             sg = h.Signal(width=width, src=src, dest=dest)
         setattr(b, name, sg)
     for name, sub, flip, srole in tree["subs"]:
@@ -124,6 +126,8 @@ def build_bundle_inline(h, tree, counter):
             ns[name] = h.Signal(width=width, src=host, dest=device)
         elif kind == "role_dh":
             ns[name] = h.Signal(width=width, src=device, dest=host)
+        elif kind == "role_hh":
+            ns[name] = h.Signal(width=width, src=host, dest=host)
         elif kind == "src_h":
             ns[name] = h.Signal(width=width, src=host)
         elif kind == "dest_d":
@@ -239,7 +243,61 @@ def _kinds(t):
     return out
 
 
+def _redefined(seq):
+    """A procedurally built bundle in which member names are assigned more than once, with values of the same or of another
+    kind (signal -> sub-bundle, sub-bundle -> signal, ...): the bundle port flattens to the leaves of the *final* definition,
+    on both sides of a connection.  seq: tuple of (member name, kind) assignments in order, kind in sig1|sig2|sub."""
+    import hdl21 as h
+
+    try:
+        sub = h.Bundle(name="RSub")
+        sub.p, sub.n = h.Signal(), h.Signal()
+        B = h.Bundle(name="RB")
+        final = {}
+        for name, kind in seq:
+            setattr(B, name, h.Signal(width=1 if kind == "sig1" else 2) if kind != "sub" else sub())
+            final[name] = kind
+        want = {}
+        for name, kind in final.items():
+            if kind == "sub":
+                want[f"io_{name}_p"], want[f"io_{name}_n"] = 1, 1
+            else:
+                want[f"io_{name}"] = 1 if kind == "sig1" else 2
+        inner = h.Module(name="RInner")
+        inner.io = B(port=True)
+        outer = h.Module(name="ROuter")
+        outer.io = B()
+        outer.i = inner(io=outer.io)
+        pkg = h.to_proto(outer)
+    except Exception as e:
+        return "raised: " + short_exc(e)
+    pin = [m for m in pkg.modules if m.name.endswith("RInner")][0]
+    pout = [m for m in pkg.modules if m.name.endswith("ROuter")][0]
+    got = {s_.name: s_.width for s_ in pin.signals}
+    ports = sorted(p_.signal for p_ in pin.ports)
+    if ports != sorted(want) or any(got.get(n) != w for n, w in want.items()):
+        return f"bundle defined by the assignments {list(seq)}: its port should flatten to {want}, the module has ports {ports}"
+    conns = sorted(c.portname for c in pout.instances[0].connections)
+    if conns != sorted(want) or sorted(s_.name for s_ in pout.signals) != sorted(want):
+        return f"bundle defined by the assignments {list(seq)}: the parent connects {conns} and holds {sorted(s_.name for s_ in pout.signals)}"
+    return None
+
+
+def redefined_items():
+    kinds = ("sig1", "sig2", "sub")
+    one = [(("data", a), ("data", b)) for a in kinds for b in kinds]
+    two = [(("data", a), ("aux", c), ("data", b), ("aux", d)) for a in kinds for b in kinds for c in kinds for d in kinds if a != b or c != d]
+    three = [(("data", a), ("data", b), ("data", c)) for a in kinds for b in kinds for c in kinds]
+    return one + two + three
+
+
 def run(ctx):
+    for seq in redefined_items():
+        r = _redefined(seq)
+        ctx.count(states=1, transitions=len(seq), traces_validated_against_impl=1)
+        ctx.fam("members_reassigned", cases=1)
+        if r:
+            ctx.violation(dict(depth=1, detail="", inst_flip="no", port=True, what="members reassigned: " + ("raised" if r.startswith("raised") else "ports")), dict(redefined=[list(x) for x in seq]), r)
     items = []
     tops = [(p, f, r) for p in (True, False) for f in TOP_FLIPS for r in ROLES]
     fam_sizes = {}
@@ -280,6 +338,10 @@ def run(ctx):
 
 
 def replay(body):
+    if "redefined" in body.get("case", {}):
+        r = _redefined(tuple(tuple(x) for x in body["case"]["redefined"]))
+        print("replay:", r or "holds")
+        return 1 if r else 0
     c = body["case"]
 
     def tup(t):
